@@ -17,6 +17,7 @@ import (
 // quote/backslash/control so that the JSON text stays well-formed).
 func ZZVerifC20Load() {
 	nd.Schedule(nd.Param("P", 1))
+	nd.Races()
 	fs, _ := memfs.NewFilespace()
 	val := func(label string) string {
 		v := nd.String(label, 1)
